@@ -122,10 +122,56 @@ def main(argv: list[str]) -> int:
                 diff = sorted({_re.sub(r"^[^:]+:\d+: ", "", m) for m in set(res["messages"]) ^ set(b["messages"])})
                 key += ":" + hashlib.sha256(json.dumps(diff).encode()).hexdigest()[:8]
             v.violation(key, x, what)
-    if n_cmp == 0:
+    # ---- the repository's check cases under different hash seeds: messages (text AND order) of the cold and of the warm build
+    from harness import corpus as C
+    from harness.common import REPO
+    ccases = []
+    for fn in C.reload_files():
+        for c in C.parse_cases(os.path.join(REPO, "test-data", "unit", fn)):
+            c["file"] = fn
+            ccases.append(c)
+    ccases = ccases[:: (10 if tier == "quick" else 2)]
+    cseeds = [0, 7] if tier == "quick" else [0, 7, 12345]
+    chunks = [ccases[i::8] for i in range(8)]
+    cjobs = []
+    for sd in cseeds:
+        for j, ch in enumerate(chunks):
+            inp, outp = os.path.join(d, "cin-%d-%d.json" % (sd, j)), os.path.join(d, "cout-%d-%d.json" % (sd, j))
+            json.dump(ch, open(inp, "w"))
+            cjobs.append((sd, inp, outp))
+
+    def crun(job: Any) -> Any:
+        sd, inp, outp = job
+        env = repo_env({"PYTHONHASHSEED": str(sd), "PYTHONPATH": VERIF + os.pathsep + os.environ.get("VERIF_REPO", "/repo"), "VERIF_SCRATCH": d})
+        p = subprocess.run([PY, "-m", "harness.c10_runner", "--corpus", inp, outp], env=env, cwd=VERIF, capture_output=True, text=True, timeout=3000)
+        if p.returncode != 0 or not os.path.exists(outp):
+            raise MachineryError("corpus runner failed: " + p.stderr[-1500:])
+        return sd, json.load(open(outp))
+
+    by_case: dict[tuple[str, str], dict[int, Any]] = {}
+    with ThreadPoolExecutor(16) as ex:
+        for sd, part in ex.map(crun, cjobs):
+            for cr in part:
+                if not cr.get("skipped"):
+                    by_case.setdefault((cr["file"], cr["name"]), {})[sd] = cr
+    n_corpus = 0
+    for (fn, name), per in sorted(by_case.items()):
+        if 0 not in per:
+            continue
+        for sd, cr in per.items():
+            if sd == 0:
+                continue
+            n_corpus += 1
+            for phase in ("cold", "warm"):
+                if cr[phase][:2] != per[0][phase][:2]:
+                    v.violation("nondet:corpus:%s::%s:%s" % (fn, name, phase), {"file": fn, "case": name, "seeds": [0, sd], "phase": phase, "a": per[0][phase], "b": cr[phase]},
+                                "%s %s: the %s build prints differently under PYTHONHASHSEED=%d than under 0: %r vs %r" % (
+                                    fn, name, phase, sd, cr[phase][1][:4], per[0][phase][1][:4]))
+                    break
+    if n_cmp == 0 or n_corpus == 0:
         raise MachineryError("conformance step did not run")
     coverage = {
-        "evaluations": len(results), "distinct_nontrivial": nontrivial,
+        "evaluations": len(results) + n_corpus, "distinct_nontrivial": nontrivial, "corpus_cases_compared_across_hash_seeds": n_corpus,
         "states": r.distinct, "transitions": r.generated, "configurations_emitted_by_tlc": len(cfgs),
         "rule": "configurations = hash seed (8) x permutation of the 3 file arguments (6) x sequence of <=2 unrelated prior builds (world x options: same / "
                 "python 3.10 / win32 + 3.11 + loose) in the same interpreter (241) x world (5, incl. an import cycle with diagnostics in every module and misspelt "
@@ -146,4 +192,9 @@ if __name__ == "__main__":
         sys.exit(main(sys.argv[1:]))
     except MachineryError as e:
         print("MACHINERY FAILURE:", e, file=sys.stderr)
+        sys.exit(2)
+    except Exception:  # an unexpected failure of the machinery is never a verdict about mypy
+        import traceback
+        traceback.print_exc()
+        print("MACHINERY FAILURE: unexpected failure of the machinery", file=sys.stderr)
         sys.exit(2)
